@@ -725,3 +725,87 @@ def ast_lambda_identity():
     from .core import Closure
     lam = _ast.parse("lambda f: f", mode="eval").body
     return Closure(lam, {}, None)
+
+
+@model("np.ones")
+def m_np_ones(ip, args, kw, st, node):
+    n, _ = znum(args[0])
+    return [(SeqV(n, z3.K(I, z3.RealVal(1)), "real"), st)]
+
+
+@model("np.zeros")
+def m_np_zeros(ip, args, kw, st, node):
+    n, _ = znum(args[0])
+    return [(SeqV(n, z3.K(I, z3.RealVal(0)), "real"), st)]
+
+
+@model("np.arange")
+def m_np_arange(ip, args, kw, st, node):
+    n, _ = znum(args[0])
+    j = z3.Int("j!ar")
+    return [(SeqV(n, z3.Lambda([j], z3.ToReal(j)), "real"), st)]
+
+
+def _clip(ip, args, kw, st, node):
+    x, lo, hi = args
+    if isinstance(x, (SeqV, ListLoc)):
+        tl, _ = _num(ip, lo, st, node)
+        th, _ = _num(ip, hi, st, node)
+        tl, th = to_real(tl), to_real(th)
+        return [(_elementwise(ip, x, st, lambda v: z3.If(z3.If(v >= tl, v, tl) <= th, z3.If(v >= tl, v, tl), th)), st)]
+    return m_clip(ip, args, kw, st, node)
+
+
+MODELS["np.clip"] = _clip
+MODELS["pm.clip"] = _clip
+
+
+@model("sorted")
+def m_sorted(ip, args, kw, st, node):
+    v = args[0]
+    items = list(v.items if isinstance(v, PyList) else v)
+    if len(items) == 2:
+        (a, ka), (b, kb) = _num(ip, items[0], st, node), _num(ip, items[1], st, node)
+        kind = "real" if "real" in (ka, kb) else "int"
+        if kind == "real":
+            a, b = to_real(a), to_real(b)
+        return [(PyList([Sym(z3.If(a <= b, a, b), kind), Sym(z3.If(a <= b, b, a), kind)]), st)]
+    if all(isinstance(x, (int, float)) for x in items):
+        return [(PyList(sorted(items)), st)]
+    raise OutOfSubset("sorted of a symbolic list longer than 2", node)
+
+
+@model("map")
+def m_map(ip, args, kw, st, node):
+    f, xs = args
+    items = list(xs.items if isinstance(xs, PyList) else xs)
+    out, cur = [], st
+    for x in items:
+        r = ip.call(f, [x], {}, cur, node)
+        if len(r) != 1 or isinstance(r[0][0], Exc):
+            raise OutOfSubset("map with a branching function", node)
+        out.append(r[0][0])
+        cur = r[0][1]
+    return [(PyList(out), cur)]
+
+
+@model("object.__setattr__")
+def m_obj_setattr(ip, args, kw, st, node):
+    obj, name, val = args
+    if isinstance(obj, Sym) and is_ref_ty(obj.ty) and isinstance(name, str):
+        ip.write_field(obj.t, obj.ty[1], name, val, st, node)
+        return [(None, st)]
+    raise OutOfSubset("object.__setattr__", node)
+
+
+class PySlice:
+    def __init__(self, start, stop, step):
+        self.start, self.stop, self.step = start, stop, step
+
+
+@model("slice")
+def m_slice(ip, args, kw, st, node):
+    a = list(args) + [None] * (3 - len(args))
+    if len(args) == 1:
+        a = [None, args[0], None]
+    return [(PySlice(a[0], a[1], a[2]), st)]
